@@ -165,15 +165,38 @@ def dyn_cases(tier):
                     yield {"kind": kind, "layout": layout, "targets": list(combo)}
 
 
+_LAST_CODE_ID = [None]
+_RECYCLED = {True: 0, False: 0}
+
+
 def check_dyn(case):
     """returns (status, problems, ncontexts)"""
+    mark = len(_NS_TO_CLEAR)
+    try:
+        return _check_dyn(case)
+    finally:
+        # a function and its globals refer to each other: break that cycle so that the code objects of this case are
+        # released here and now (the next case may then be handed their addresses)
+        while len(_NS_TO_CLEAR) > mark:
+            _NS_TO_CLEAR.pop().clear()
+
+
+_NS_TO_CLEAR = []
+
+
+def _check_dyn(case):
     from stackscope import lowlevel
-    if case["layout"] == "gap":
-        # self-contained history: the same statement one line higher is analysed first, in this very case (the two code
-        # objects have equal bytecode and, on 3.9/3.10, compare equal although their line tables differ)
+    want_id = None
+    if case["layout"] in ("gap", "one") and not case.get("_twin"):
+        # self-contained history: the same statement one line higher/lower is analysed first, in this very case (the two
+        # code objects have equal bytecode and, on 3.9/3.10, compare equal although their line tables differ); it is gone
+        # by the time the case proper is compiled, and the new code object is made to land on the address the twin's
+        # had (whatever identifies a function by id() or by its bytecode alone sees "the same" function again)
         twin = dict(case)
-        twin["layout"] = "one"
+        twin["layout"] = "one" if case["layout"] == "gap" else "gap"
+        twin["_twin"] = True
         check_dyn(twin)
+        want_id = _LAST_CODE_ID[0]
     combo = [TARGETS[i] for i in case["targets"]]
     items = [(t, v) for t, v, s in combo]
     try:
@@ -195,6 +218,18 @@ def check_dyn(case):
 
     ns = {"M": M, "trap": trap, "gf": f}
     exec(code, ns)
+    _NS_TO_CLEAR.append(ns)
+    rejects = []
+    while want_id is not None and id(ns["prog"].__code__) != want_id and len(rejects) < 40:
+        rejects.append((code, ns))
+        code = compile(src, "<p>", "exec")
+        ns = {"M": M, "trap": trap, "gf": f}
+        exec(code, ns)
+        _NS_TO_CLEAR.append(ns)
+    if want_id is not None:
+        _RECYCLED[id(ns["prog"].__code__) == want_id] += 1
+    del rejects
+    _LAST_CODE_ID[0] = id(ns["prog"].__code__)
     co = ns["prog"](o, d, [0, 0], "k", f)
     try:
         co.send(None)
@@ -435,6 +470,8 @@ def run(ctx):
                 ctx.violation(case2, "; ".join(problems)[:1200], problems[0].split(" ")[0])
             if idx % 997 == 0:
                 ctx.sample({"leg": "dynamic", "case": case, "targets": [TARGETS[i][0] for i in case["targets"]]})
+        ctx.count("twin_address_recycled", _RECYCLED[True])
+        ctx.count("twin_address_not_recycled", _RECYCLED[False])
     else:
         files = stdlib_files(ctx.tier)
         for i, path in enumerate(files):
